@@ -99,6 +99,13 @@ var (
 	nameTails = []string{"", "_hlt", "_cli", "8", "16", "32", "_eflags", "_gdtr", "loop", "_inthandler21", "_x", "A", "_store_cr0", "done", "2", "_very_long_symbol_name"}
 )
 
+// Labels that many generated programs define, so that identical operand texts ("SI,msg",
+// "BX,fin") recur across different mnemonics and across different programs of one pool.
+var commonLabels = []string{"fin", "entry", "putloop", "msg", "next", "retry", "error", "strend"}
+
+// sharedOperands: operand-pair texts used verbatim with several mnemonics (MOV and non-MOV).
+var sharedOperands = []string{"SI,msg", "BX,fin", "AX,entry", "SI,strend", "CX,retry", "DI,next", "AX,0", "SI,1", "BX,15", "AL,[SI]", "CX,[SI]", "[0x0ff0],BX", "DX,[0x0ff2]", "ECX,[EBX+16]", "EAX,1", "AX,BX", "ECX,EDX", "BYTE [SI],0", "WORD [0x0ff4],320", "AX,msg+2"}
+
 type progGen struct {
 	nonASCII bool // string literals may contain non-ASCII text (C10 pools only: C19 re-encodes files)
 	r        *RNG
@@ -275,8 +282,55 @@ func (g *progGen) target() string {
 
 // stmt produces one statement line. The oracle is self-consistency, so a statement gosk
 // does not support is still a legal workload item (it takes the log-and-continue path).
+// Mnemonics that have a pass-1 handler in gosk (internal/pass1/handlers.go), used for the
+// generic mnemonic x operand-shape cross product.
+var handled = []string{"MOV", "INT", "ADD", "ADC", "SUB", "SBB", "CMP", "INC", "DEC", "NEG", "MUL", "IMUL", "DIV", "IDIV", "AND", "OR", "XOR", "NOT", "SHR", "SHL", "SAR", "IN", "OUT", "CALL", "LGDT", "PUSH", "POP", "RET", "JMP", "JE", "JNZ", "JB", "JAE", "LIDT", "TEST", "XCHG", "LEA"}
+
+// operand draws one operand of a random shape.
+func (g *progGen) operand() string {
+	r := g.r
+	switch r.Intn(11) {
+	case 0:
+		return pick(r, regs8)
+	case 1:
+		return pick(r, regs16)
+	case 2:
+		return pick(r, regs32)
+	case 3:
+		return pick(r, sregs)
+	case 4:
+		return pick(r, []string{"CR0", "CR3", "CS"})
+	case 5:
+		return g.imm(pick(r, []int{8, 16, 32}))
+	case 6:
+		return g.target()
+	case 7:
+		return g.expr(0)
+	case 8:
+		return g.mem()
+	case 9:
+		return pick(r, []string{"BYTE", "WORD", "DWORD"}) + " " + g.mem()
+	default:
+		return "CL"
+	}
+}
+
 func (g *progGen) stmt() string {
 	r := g.r
+	if r.Chance(1, 9) { // generic cross product: handled mnemonic x 0..3 operands of any shape
+		n := r.weighted([]int{1, 4, 8, 1})
+		ops := make([]string, n)
+		for i := range ops {
+			ops[i] = g.operand()
+		}
+		if n == 0 {
+			return "\t" + pick(r, handled)
+		}
+		return "\t" + pick(r, handled) + "\t" + strings.Join(ops, ",")
+	}
+	if r.Chance(1, 7) { // the same operand text under different mnemonics
+		return "\t" + pick(r, []string{"MOV", "MOV", "ADD", "SUB", "CMP", "AND", "OR", "XOR", "ADC", "SBB", "TEST"}) + "\t" + pick(r, sharedOperands)
+	}
 	switch r.weighted([]int{14, 10, 6, 6, 4, 8, 4, 4, 6, 8, 4, 7, 3, 3}) {
 	case 0: // MOV reg, imm
 		switch r.Intn(3) {
@@ -340,11 +394,29 @@ func (g *progGen) stmt() string {
 			return "\t" + op + "\t" + pick(r, regs16) + "," + pick(r, regs16)
 		}
 		return "\t" + op + "\t" + pick(r, regs32) + "," + pick(r, regs32)
-	case 5: // jumps / calls
+	case 5: // jumps / calls: label, immediate address, far seg:off, expression over $ / labels
+		op := pick(r, jccs)
 		if r.Chance(1, 5) {
-			return "\tCALL\t" + g.target()
+			op = "CALL"
 		}
-		return "\t" + pick(r, jccs) + "\t" + g.target()
+		switch r.Intn(12) {
+		case 0:
+			if op != "JMP" && op != "CALL" && !r.Chance(1, 6) {
+				break
+			}
+			return "\t" + op + "\t" + fmt.Sprintf("0x%x", r.Intn(0x10000))
+		case 1:
+			return "\t" + pick(r, []string{"JMP", "CALL"}) + "\tDWORD " + fmt.Sprint(r.Range(1, 4)) + "*8:" + fmt.Sprintf("0x%08x", r.Intn(0x100000))
+		case 2:
+			return "\t" + op + "\t$"
+		case 3:
+			return "\t" + op + "\t" + g.target() + pick(r, []string{"+", "-"}) + fmt.Sprint(r.Range(1, 5))
+		case 4:
+			if r.Chance(1, 10) {
+				return "\tJMP\t" + pick(r, []string{"SHORT ", "NEAR "}) + g.target()
+			}
+		}
+		return "\t" + op + "\t" + g.target()
 	case 6:
 		return "\t" + pick(r, noparam)
 	case 7:
@@ -396,6 +468,12 @@ func (g *progGen) stmt() string {
 			}
 			return "\tDB\t\"" + pick(r, strs) + "\", 0x0a, 0"
 		case 2:
+			if r.Chance(1, 3) && len(g.labels) > 1 {
+				return "\tDW\t" + pick(r, g.labels) + "-" + pick(r, g.labels)
+			}
+			if r.Chance(1, 4) {
+				return "\tDB\t'" + string(rune('a'+r.Intn(26))) + "', '" + string(rune('A'+r.Intn(26))) + "'"
+			}
 			return "\tDW\t" + g.imm(16) + ", " + g.imm(16)
 		case 3:
 			return "\tDD\t" + g.imm(32)
@@ -406,6 +484,12 @@ func (g *progGen) stmt() string {
 			return "\tDD\t0xffffffff"
 		}
 	case 10:
+		if r.Chance(1, 6) {
+			return "\tRESB\t" + fmt.Sprint(r.Range(2, 9)) + "*" + fmt.Sprint(r.Range(2, 9)) + "-" + fmt.Sprint(r.Range(0, 3))
+		}
+		if r.Chance(1, 8) {
+			return "\tRESB\t" + pick(r, []string{"4096", "5000", "9000", "70000"})
+		}
 		if r.Chance(1, 2) {
 			return "\tRESB\t" + fmt.Sprint(r.Range(1, 40))
 		}
@@ -440,6 +524,21 @@ func (g *progGen) stmt() string {
 		return "\tMOV\tCR0,EAX"
 	default: // deliberately odd but lexically plausible: exercises the error paths
 		return pick(r, []string{
+			"\tRET\t4",
+			"\tRETF",
+			"\tIN\tAX,DX",
+			"\tIN\tEAX,DX",
+			"\tIN\tAL,0x60",
+			"\tOUT\tDX,EAX",
+			"\tIMUL\tAX,BX",
+			"\tIMUL\tECX,EDX,12",
+			"\tLEA\tSI,[BX+4]",
+			"\tXCHG\tAX,BX",
+			"\tTEST\tAL,1",
+			"\tMOVZX\tEAX,AL",
+			"\tREP\tMOVSB",
+			"\tLOOP\t$",
+			"\tMOV\tAX,[ES:BX]",
 			"\tMOV\tEAX,CR0",
 			"\tMOV\tCR0,EAX",
 			"\tIMUL\tECX,4608",
@@ -527,6 +626,14 @@ func genBody(r *RNG, o genOpts) (body []string, hasEqu, hasGlobal bool) {
 	}
 	g.equs = equNames
 	for i := 0; i < o.NLabels; i++ {
+		if r.Chance(1, 3) {
+			c := pick(r, commonLabels)
+			if !g.used[strings.ToUpper(c)] {
+				g.used[strings.ToUpper(c)] = true
+				g.labels = append(g.labels, c)
+				continue
+			}
+		}
 		g.labels = append(g.labels, g.newName())
 	}
 	// GLOBAL declarations: a subset of labels in shuffled order + undefined names + duplicates
@@ -587,6 +694,8 @@ func genBody(r *RNG, o genOpts) (body []string, hasEqu, hasGlobal bool) {
 	return
 }
 
+var instrSets = []string{"8086", "i186", "i286", "i286p", "i386", "i386p", "i486", "i486p", "pentium", "p6"}
+
 func headerFor(o genOpts, r *RNG) []string {
 	var h []string
 	if o.Coff {
@@ -594,6 +703,16 @@ func headerFor(o genOpts, r *RNG) []string {
 		if o.Bits32 || r.Chance(1, 2) {
 			h = append(h, `[INSTRSET "i486p"]`)
 		}
+	} else {
+		if r.Chance(1, 3) { // any instruction-set level, also the pre-386 ones
+			h = append(h, `[INSTRSET "`+pick(r, instrSets)+`"]`)
+		}
+		if r.Chance(1, 8) {
+			h = append(h, `[FORMAT "BIN"]`)
+		}
+	}
+	if r.Chance(1, 8) {
+		h = append(h, pick(r, []string{"[OPTIMIZE 1]", "[OPTIMIZE 0]", "[PADDING 1]", "[PADSET 0]", "[BITS 16]"}))
 	}
 	if o.Bits32 {
 		h = append(h, "[BITS 32]")
